@@ -251,6 +251,9 @@ def body(chk):
     collection_wiring(chk)
     registration(chk)
     macro_probe.dispatch_obligations(chk, 'C19')
+    # what the wrapper is handed - the whole match and every capture group, named, in order - is made by Collection::find
+    from checks import c17
+    c17.obligations(chk, 'C19')
     macro_probe.obligations(chk, 'C19')
 
 
